@@ -9,8 +9,8 @@ META = {
                    'report objects are fed in emission order to the real ConsumerMdib.process_incoming_*; canonical member-wise '
                    'snapshots, every lookup index vs. a linear scan, and the consumer\'s change notifications are compared.',
     'outside': ['XML wire format of the reports (identity stub; data-type round trips are C05, timestamps at 1 ms resolution C18)',
-                'initial load / reload via GetMdib and faulty delivery (C06)', 'real-time sample arrays (Decimal samples realise) and '
-                'the waveform age logging', 'histories longer than 2 transactions (induction over histories is an argument: the step '
+                'initial load / reload via GetMdib and faulty delivery (C06)', 'symbolic sample VALUES of real-time sample arrays (Decimal realises; counters and sample count are symbolic) and '
+                'the ConsumerRtBuffer contents / waveform age logging', 'histories longer than 2 transactions (induction over histories is an argument: the step '
                 'obligation starts from arbitrary version counters)', 'MDIBs larger than the 8-16 descriptor kit'],
 }
 F = ['sdc11073.mdib.providermdib.ProviderMdib._transaction_manager',
@@ -34,7 +34,7 @@ F = ['sdc11073.mdib.providermdib.ProviderMdib._transaction_manager',
      'sdc11073.mdib.consumermdib.ConsumerMdib._can_accept_mdib_version',
      'sdc11073.mdib.containerbase.ContainerBase._update_from_other']
 STATE_KINDS = ['metric', 'two_metrics_two_mds', 'alert', 'component', 'operational', 'context_new', 'context_update',
-               'context_update_two_of_one_descriptor', 'set_location']
+               'context_update_two_of_one_descriptor', 'set_location', 'waveform']
 DESCR_KINDS = ['update_alert_condition_source', 'update_alert_signal_condition_signaled', 'update_metric_descriptor_and_state',
                'create_metric', 'delete_leaf', 'delete_subtree', 'update_context_descriptor', 'create_channel_with_child']
 SYM = 'symbolic: DescriptorVersion, StateVersion, MdibVersion, context StateVersion in N (unconstrained); str payload <= 3 chars; '
